@@ -706,6 +706,72 @@ pub fn run_deref_mut<T: Case + Addrs + std::ops::DerefMut<Target = P>, W: Write>
     }
 }
 
+// ---------------------------------------------------------------- Into (C10)
+
+/// Target types of Into: TT<1> ("A") and TT<2> ("B"). They also serve as field types.
+pub struct TT<const K: u8> {
+    pub s: u8,
+    pub f: u8,
+    pub v: i8,
+    pub g: u8,
+}
+pub type TA = TT<1>;
+pub type TB = TT<2>;
+
+impl<const K: u8> TT<K> {
+    pub fn new(s: u8, f: u8, v: i8) -> Self {
+        TT { s, f, v, g: G_ORIG }
+    }
+
+    pub fn finger(&self) -> String {
+        format!("[\"{}\",{},{},{}]", side_name(self.s), self.f, self.v, self.g)
+    }
+}
+
+pub trait Src {
+    fn parts(&self) -> (u8, u8, i8);
+}
+impl Src for P {
+    fn parts(&self) -> (u8, u8, i8) {
+        (self.s, self.f, self.v)
+    }
+}
+impl<const K: u8> Src for TT<K> {
+    fn parts(&self) -> (u8, u8, i8) {
+        (self.s, self.f, self.v)
+    }
+}
+
+impl<const K: u8> From<P> for TT<K> {
+    fn from(p: P) -> Self {
+        log_push(format!("[\"from\",\"own\",{}]", p.arg()));
+        TT { s: p.s, f: p.f, v: p.v, g: G_FROM }
+    }
+}
+
+/// custom conversion method usable for every (field type, target) pair
+pub fn m_into<X: Src, const K: u8>(x: X) -> TT<K> {
+    let (s, f, v) = x.parts();
+    log_push(format!("[\"into\",\"method\",\"{}\",{},{}]", side_name(s), f, v));
+    TT { s, f, v, g: G_METHOD }
+}
+
+pub fn run_into<T: Case + Into<TT<K>>, const K: u8, W: Write>(out: &mut Out<W>, dom: &[i8]) {
+    let kname = if K == 1 { "A" } else { "B" };
+    for a in all_values::<T>(dom).iter() {
+        let x = T::make(0, a.v, &a.f);
+        log_take();
+        match catch_unwind(AssertUnwindSafe(move || -> TT<K> { x.into() })) {
+            Ok(r) => out.rec(&format!(
+                "\"ev\":\"op\",\"t\":{},\"op\":\"into\",\"a\":{},\"k\":\"{}\",\"res\":{}",
+                T::ID, a.json(), kname, r.finger()
+            )),
+            Err(_) => out.rec(&format!("\"ev\":\"op\",\"t\":{},\"op\":\"panic\",\"in\":\"into\",\"a\":{}", T::ID, a.json())),
+        }
+        log_take();
+    }
+}
+
 // ---------------------------------------------------------------- layout matrix (C04)
 
 /// A value with neighbour bytes: the value sits at offset 0 of a `#[repr(C)]` pair whose second member is
